@@ -74,13 +74,42 @@ class C12(Prop):
             {'id': 'p1', 'type': 'number', 'value': 50, 'writable': True, 'enabled': True, 'custom': 'green'}],
             'steps': [['radd', 'x1', 'number', 2], ['rattr', 'p1', 'display_name', 'r1'], ['mvalue', 'p1', 17],
                       ['wait', 2], ['check']]})
+        # slow actuator: a write answered 202 Accepted and never applied must not show up on the master
+        out.append({'mode': 'listen', 'latency': 0.01, 'fail': 'refused', 'poll': 1, 'ports': [
+            {'id': 'p1', 'type': 'number', 'value': 5, 'writable': True, 'enabled': True, 'slow': 'never'},
+            {'id': 'p2', 'type': 'number', 'value': 6, 'writable': True, 'enabled': True, 'slow': 'later'}],
+            'steps': [['mvalue', 'p1', 9], ['mvalue', 'p2', 8], ['wait', 3], ['check']]})
+        # pushed events (neither listening nor polling): an event overtakes the answer of the follow-up GET /ports
+        out.append({'mode': 'push', 'latency': 0.2, 'push_latency': 0.01, 'fail': 'refused', 'poll': 1, 'ports': p2,
+                    'steps': [['rvalue', 'p1', 21], ['when', 'ports', 0.05, [['rvalue', 'p1', 22],
+                                                                            ['rattr', 'p1', 'display_name', 'boiler']]],
+                              ['wait', 4], ['check'], ['radd', 'x1', 'number', 3], ['rremove', 'p2'], ['check']]})
+        # reconnect race: a port added after the listening session exists but before the full fetch is answered comes
+        # with the fetch AND as a (then inapplicable) port-add event, followed by a value change in the same response
+        out.append({'mode': 'listen', 'latency': 0.1, 'fail': 'refused', 'poll': 1, 'ports': p1, 'steps': [
+            ['down'], ['await_offline'], ['wait', 120], ['up'], ['when', 'device', 0.0, [['radd', 'x1', 'number', 3]]],
+            ['when', 'ports', 0.01, [['rvalue', 'p1', 8]]], ['await_online'], ['wait', 2], ['check']]})
+        # polling: a write through the master accepted with 204, then the device falls back to its previous value
+        # before any poll has seen the written one (the GET /ports answer never changes)
+        out.append({'mode': 'poll', 'latency': 0.01, 'fail': 'refused', 'poll': 5, 'ports': p1, 'steps': [
+            ['wait', 11], ['mvalue', 'p1', 9], ['rvalue', 'p1', 5], ['wait', 12], ['check']]})
+        # a push refused by the device on reconnect, then the port changes on the device
+        for mode in ('listen', 'poll'):
+            out.append({'mode': mode, 'latency': 0.01, 'fail': 'refused', 'poll': 1, 'ports': p1, 'steps': [
+                ['down'], ['await_offline'], ['mvalue', 'p1', 9], ['rfail', 'p1'], ['wait', 3], ['up'], ['await_online'],
+                ['rvalue', 'p1', 12], ['rattr', 'p1', 'display_name', 'n'], ['wait', 2], ['check']]})
         return out
 
     def gen(self, rng, tier):
-        mode = rng.choice(['listen', 'listen', 'poll'])
+        mode = rng.choice(['listen', 'listen', 'listen', 'poll', 'poll', 'push'])
         ports = base_ports(rng, rng.choice([1, 2, 2, 3, 4]))
+        for p in ports:
+            if p['writable'] and p['enabled'] and rng.random() < 0.15:
+                p['slow'] = rng.choice(['never', 'later'])
         case = {'mode': mode, 'latency': rng.choice([0.001, 0.01, 0.01, 0.03, 0.1, 0.2]),
                 'fail': rng.choice(['refused', 'refused', 'timeout']), 'poll': rng.choice([1, 2, 5]), 'ports': ports}
+        if mode == 'push':
+            case['push_latency'] = rng.choice([case['latency'], case['latency'] / 4, 0.001])
         steps = []
         ids = [p['id'] for p in ports]
         types = {p['id']: p['type'] for p in ports}
@@ -141,9 +170,58 @@ class C12(Prop):
                 steps.append(['check'])
             case['steps'] = steps
             return case
+        if mode == 'push':
+            # the device pushes its events; changes are also timed into the master's follow-up sync (GET /device, /ports)
+            for _ in range(rng.randint(1, 3)):
+                remote(rng.randint(1, 4), burst=rng.random() < 0.5)
+                if rng.random() < 0.6:
+                    k = len(steps)
+                    remote(rng.randint(1, 3), burst=True)
+                    nested = steps[k:]
+                    del steps[k:]
+                    steps.append(['when', rng.choice(['ports', 'ports', 'device']),
+                                  rng.choice([0.0, 0.01, 0.05, 0.15]), nested])
+                steps.append(['wait', rng.choice([0.5, 2, 4])])
+                steps.append(['check'])
+            case['steps'] = steps
+            return case
         for _ in range(rng.randint(1, 4)):
             kind = rng.random()
-            if kind < 0.45:
+            if kind < 0.12 and mode == 'poll':
+                # write through the master, then the device falls back to the value it had before
+                wr = [p for p in ports if p['writable'] and p['enabled'] and p['type'] == 'number' and not p.get('slow')]
+                if wr:
+                    p = rng.choice(wr)
+                    a = rng.randint(2, 60)
+                    steps += [['rvalue', p['id'], a], ['wait', 2 * case['poll'] + 1], ['mvalue', p['id'], a + 1],
+                              ['rvalue', p['id'], a], ['wait', 2 * case['poll'] + 1]]
+            elif kind < 0.24 and mode != 'poll' or kind < 0.18:
+                # outage, then changes timed into the reconnect window (after the session exists / after the snapshot)
+                steps.append(['down'])
+                steps.append(['await_offline'])
+                remote(rng.randint(0, 2))
+                steps.append(['wait', rng.choice([1, 30, 120])])
+                steps.append(['up'])
+                for hook in rng.choice([['device', 'ports'], ['device', 'ports'], ['listen', 'ports'], ['ports']]):
+                    k = len(steps)
+                    remote(rng.randint(1, 3), burst=True)
+                    nested = steps[k:]
+                    del steps[k:]
+                    steps.append(['when', hook, rng.choice([0.0, 0.01, 0.05]), nested])
+                steps.append(['await_online'])
+            elif kind < 0.30:
+                # an edit made while offline whose push the device refuses, then the port changes on the device
+                wr = [p for p in ports if p['writable'] and p['enabled']]
+                if wr:
+                    p = rng.choice(wr)
+                    steps += [['down'], ['await_offline']]
+                    steps.append(rng.choice([['mvalue', p['id'], rnd_value(p['id'])],
+                                             ['mattr', p['id'], 'display_name', 'off']]))
+                    steps.append(rng.choice([['rfail', p['id']], ['rattr', p['id'], 'enabled', False]]))
+                    steps += [['wait', rng.choice([3, 40])], ['up'], ['await_online']]
+                    steps += [['rattr', p['id'], 'enabled', True], ['rvalue', p['id'], rnd_value(p['id'])],
+                              ['rattr', p['id'], 'display_name', 'on']]
+            elif kind < 0.45:
                 remote(rng.randint(1, 8), burst=rng.random() < 0.4)
             elif kind < 0.6:
                 master(rng.randint(1, 2))
@@ -191,7 +269,7 @@ class C12(Prop):
         tags.add('mode-' + case['mode'])
         if fail is None:
             fail = mfail
-        nrem = sum(1 for s in case['steps'] if s[0].startswith('r'))
+        nrem = sum(1 for s in sc.flat_steps(case) if s[0].startswith('r'))
         key = None
         if 'mirror-checked' in tags and nrem >= 3:
             final = real.checks[-1]['slave'] if real.checks else {}
